@@ -280,11 +280,11 @@ func c28Expect(f c28Frame, got debugFrame, avail int, r *vp.Rec) error {
 }
 
 type c28FramesCase struct {
-	Long   bool       `json:"long"`  // Initial packet instead of 1-RTT
-	Lim    int        `json:"lim"`   // datagram size limit
-	CID    int        `json:"cid"`   // destination connection ID length
-	Tok    int        `json:"tok"`   // Initial: token length
-	D      int64      `json:"d"`     // packet number minus largest acked (selects the number length)
+	Long   bool       `json:"long"` // Initial packet instead of 1-RTT
+	Lim    int        `json:"lim"`  // datagram size limit
+	CID    int        `json:"cid"`  // destination connection ID length
+	Tok    int        `json:"tok"`  // Initial: token length
+	D      int64      `json:"d"`    // packet number minus largest acked (selects the number length)
 	Frames []c28Frame `json:"frames"`
 }
 
@@ -488,7 +488,7 @@ func c28FrameGen() *rapid.Generator[c28Frame] {
 			wide := rapid.Bool().Draw(t, "wide")
 			base := int64(0)
 			if wide {
-				base = int64(c28Varint(1 << 61).Draw(t, "base"))
+				base = int64(c28Varint(1<<61).Draw(t, "base"))
 			} else {
 				base = rapid.Int64Range(0, 100).Draw(t, "base")
 			}
@@ -534,7 +534,7 @@ func c28FrameGen() *rapid.Generator[c28Frame] {
 			f.A = vi.Draw(t, "id")
 			f.Data = c28DataGen(1200).Draw(t, "data")
 			if rapid.Bool().Draw(t, "hasoff") {
-				f.B = c28Varint(c28MaxVarint - uint64(len(f.Data))).Draw(t, "off")
+				f.B = c28Varint(c28MaxVarint-uint64(len(f.Data))).Draw(t, "off")
 			}
 			f.Fin = rapid.Bool().Draw(t, "fin")
 		case "maxdata", "datablocked", "retirecid":
@@ -1626,14 +1626,14 @@ func c28SeedFrames() [][]byte {
 		out = append(out, append([]byte(nil), w.payload()...))
 	}
 	out = append(out,
-		[]byte{0x08, 0x01},                         // STREAM without LEN, OFF
-		[]byte{0x0c, 0x01, 0x05, 'a'},             // STREAM with OFF
+		[]byte{0x08, 0x01},            // STREAM without LEN, OFF
+		[]byte{0x0c, 0x01, 0x05, 'a'}, // STREAM with OFF
 		[]byte{0x0e, 0x01, 0xff, 0xff, 0xff, 0xff, 0xff, 0xff, 0xff, 0xff, 0x01, 'a'}, // offset overflow
-		[]byte{0x12, 0xd0, 0, 0, 0, 0, 0, 0, 1},    // MAX_STREAMS 2^60+1
-		[]byte{0x16, 0xd0, 0, 0, 0, 0, 0, 0, 1},    // STREAMS_BLOCKED 2^60+1
-		[]byte{0x02, 0x05, 0x00, 0x01, 0x00, 0x09}, // ACK whose second range is negative
-		[]byte{0x18, 0x01, 0x00, 0x15},             // NEW_CONNECTION_ID length 21
-		[]byte{0x07, 0x00},                         // empty NEW_TOKEN
+		[]byte{0x12, 0xd0, 0, 0, 0, 0, 0, 0, 1},                                       // MAX_STREAMS 2^60+1
+		[]byte{0x16, 0xd0, 0, 0, 0, 0, 0, 0, 1},                                       // STREAMS_BLOCKED 2^60+1
+		[]byte{0x02, 0x05, 0x00, 0x01, 0x00, 0x09},                                    // ACK whose second range is negative
+		[]byte{0x18, 0x01, 0x00, 0x15},                                                // NEW_CONNECTION_ID length 21
+		[]byte{0x07, 0x00},                                                            // empty NEW_TOKEN
 		[]byte{0x1f}, []byte{0x40, 0x01}, []byte{0xff},
 	)
 	return out
